@@ -221,8 +221,49 @@ fn gfields() -> BoxedStrategy<FieldCase> {
         .boxed()
 }
 
+fn o_hist(h: &crate::history::Hist<NameCase>, st: &mut Stats) -> Result<(), String> {
+    let text = format!("pkg:{}/g/{}", h.inner.ty, h.inner.name);
+    crate::history::judge(h, &text, o_name, st)
+}
+
+/// Every scalar value next to a separator: the pypi rule takes another path when the name has one.
+fn o_name_in_context(c: &NameCase, st: &mut Stats) -> Result<(), String> {
+    o_name(c, st)
+}
+
 pub fn sections() -> Vec<Box<dyn Section>> {
     vec![
+        Box::new(Random {
+            name: "names-after-a-prelude".into(),
+            quick: 16_000,
+            thorough: 400_000,
+            strategy: Box::new(|_| {
+                crate::history::ghist(
+                    (select(&["pypi", "pypi", "nuget", "npm"][..]), prop_oneof![3 => gtext1(), 1 => select(&["straße_utils", "STRASSE_UTILS", "x.ς", "x.σ", "ſ-a", "S-a", "µ_1", "Μ_1"][..]).prop_map(str::to_string)])
+                        .prop_map(|(ty, name)| NameCase { ty: ty.into(), name })
+                        .boxed(),
+                )
+            }),
+            oracle: o_hist,
+            required: vec!["name-changed-by-rule"],
+        }),
+        Box::new(Enumerated {
+            name: "every-scalar-value-next-to-a-separator".into(),
+            total: Box::new(|_| 0x110000 * 4),
+            make: Box::new(|_, i| {
+                let c = char::from_u32((i / 4) as u32)?;
+                let (ty, name) = match i % 4 {
+                    0 => ("pypi", format!("{c}_a")),
+                    1 => ("pypi", format!("a.{c}")),
+                    2 => ("pypi", format!("A-{c}-B")),
+                    _ => ("nuget", format!("A{c}")),
+                };
+                Some(NameCase { ty: ty.into(), name })
+            }),
+            oracle: o_name_in_context,
+            required: vec!["name-changed-by-rule"],
+            complete: true,
+        }),
         Box::new(Enumerated {
             name: "every-scalar-value-as-name".into(),
             total: Box::new(|_| 0x110000 * 7),
